@@ -302,7 +302,7 @@ def m_bool_then_some(e, st, fr, t, a):
 def m_mem_take(e, st, fr, t, a):
     ref = peel(e, st, a[0])
     old = _load(e, st, ref)
-    m = re.match(r'^std::mem::take::<(.*)>$', t.func, re.S)
+    m = re.match(r'^(?:std::mem::)?take::<(.*)>$', t.func, re.S)
     ty = (m.group(1) if m else '').strip()
     if ty.startswith(('Option<', 'std::option::Option<')) or (isinstance(old, VAgg) and old.name == 'Option'):
         new = NONE
@@ -461,6 +461,88 @@ def m_vec_clear(e, st, fr, t, a):
     return UNIT
 
 
+def m_vec_with_capacity(e, st, fr, t, a):
+    return VAgg(name='Vec', extra={'items': ()})
+
+
+def _vec_take_at(e, st, a, idx_of, what, swap=False):
+    v = _vec_at(e, st, a[0])
+    if v is None:
+        return NotImplemented
+    ref = peel(e, st, a[0])
+    items = list(v.extra['items'])
+    i = e.as_int_expr(a[1])
+    if not isinstance(i, int):
+        raise Unsupported(f"{what} with a symbolic index")
+    if i >= len(items):
+        st.event('panic', 'explicit', f"{what} index out of bounds")
+        st.meta['panic_now'] = True
+        return [st]
+    x = items[i]
+    if swap:
+        items[i] = items[-1]
+        items.pop()
+    else:
+        del items[i]
+    _store(e, st, ref, VAgg(name='Vec', fields=v.fields, extra={**v.extra, 'items': tuple(items)}))
+    return x
+
+
+def m_vec_swap_remove(e, st, fr, t, a):
+    return _vec_take_at(e, st, a, None, 'Vec::swap_remove', swap=True)
+
+
+def m_vec_remove(e, st, fr, t, a):
+    return _vec_take_at(e, st, a, None, 'Vec::remove')
+
+
+def m_vec_insert(e, st, fr, t, a):
+    v = _vec_at(e, st, a[0])
+    if v is None:
+        return NotImplemented
+    ref = peel(e, st, a[0])
+    items = list(v.extra['items'])
+    i = e.as_int_expr(a[1])
+    if not isinstance(i, int):
+        raise Unsupported("Vec::insert with a symbolic index")
+    items.insert(i, a[2])
+    _store(e, st, ref, VAgg(name='Vec', fields=v.fields, extra={**v.extra, 'items': tuple(items)}))
+    return UNIT
+
+
+def m_hashmap_clear(e, st, fr, t, a):
+    import sysmodels as S
+    ref, mp = S._map_at(e, st, a[0])
+    if mp is None:
+        return NotImplemented
+    old = [mp.fields[('f', i)] for i, k in enumerate(mp.extra['keys']) if k is not None]
+    _store(e, st, ref, VAgg(name='HashMap', fields={}, extra={'keys': ()}))
+    for x in old:
+        e.dropper.drop(st, x, 'HashMap::clear')
+    return UNIT
+
+
+def m_hashmap_len(e, st, fr, t, a):
+    import sysmodels as S
+    ref, mp = S._map_at(e, st, a[0])
+    if mp is None:
+        return NotImplemented
+    return VScalar(sum(1 for k in mp.extra['keys'] if k is not None))
+
+
+def m_hashmap_is_empty(e, st, fr, t, a):
+    r = m_hashmap_len(e, st, fr, t, a)
+    return r if r is NotImplemented else VScalar(r.v == 0)
+
+
+def m_hashmap_contains_key(e, st, fr, t, a):
+    import sysmodels as S
+    ref, mp = S._map_at(e, st, a[0])
+    if mp is None:
+        return NotImplemented
+    return VScalar(S._key_repr(e, st, a[1]) in mp.extra['keys'])
+
+
 def m_thread_panicking(e, st, fr, t, a):
     """std::thread::panicking(): true while the current task unwinds (MIR cleanup path)"""
     return VScalar(bool(st.unwinding))
@@ -504,9 +586,9 @@ def install(eng: Engine):
     add(Rs + r'or::<', m_res_or)
     add(r'^(core::bool::<impl )?bool>?::then::<', m_bool_then)
     add(r'^(core::bool::<impl )?bool>?::then_some::<', m_bool_then_some)
-    add(r'^std::thread::panicking$', m_thread_panicking)
-    add(r'^std::mem::take::<', m_mem_take)
-    add(r'^std::mem::swap::<', m_mem_swap)
+    add(r'^(std::thread::)?panicking$', m_thread_panicking)
+    add(r'^(std::mem::)?take::<', m_mem_take)
+    add(r'^(std::mem::)?swap::<', m_mem_swap)
     add(r'^(core::num::<impl )?(usize|u64|u32|u8|i32|i64)>?::saturating_sub$', m_saturating_sub)
     add(r'^(core::num::<impl )?(usize|u64|u32|u8|i32|i64)>?::saturating_add$', m_saturating_add)
     add(r'^(core::num::<impl )?(usize|u64|u32|u8|i32|i64)>?::checked_sub$', m_checked_sub)
@@ -516,6 +598,14 @@ def install(eng: Engine):
     add(r'^<.* as Iterator>::all::<', m_iter_all)
     add(r'^<.* as Iterator>::for_each::<', m_iter_for_each)
     add(r'^<.* as Iterator>::count$', m_iter_count)
+    add(r'^HashMap::<.*>::clear$', m_hashmap_clear)
+    add(r'^HashMap::<.*>::len$', m_hashmap_len)
+    add(r'^HashMap::<.*>::is_empty$', m_hashmap_is_empty)
+    add(r'^HashMap::<.*>::contains_key::<', m_hashmap_contains_key)
+    add(r'^Vec::<.*>::with_capacity$', m_vec_with_capacity)
+    add(r'^Vec::<.*>::swap_remove$', m_vec_swap_remove)
+    add(r'^Vec::<.*>::remove$', m_vec_remove)
+    add(r'^Vec::<.*>::insert$', m_vec_insert)
     add(r'^Vec::<.*>::len$', m_vec_len)
     add(r'^Vec::<.*>::is_empty$', m_vec_is_empty)
     add(r'^Vec::<.*>::pop$', m_vec_pop)
